@@ -1,4 +1,5 @@
 import GoSQLXModel.Model.LspServer
+import GoSQLXModel.Proofs.LspDocs
 /-!
 # C18 — Language server never dies, answers each request once, mirrors the document
 
@@ -13,6 +14,10 @@ import GoSQLXModel.Model.LspServer
   arithmetic, Go slice bounds as explicit panics) never panics and yields exactly the documents of the
   protocol specification (`Spec.idx`: one pass over the text counting line feeds and UTF-16 units).
   The key lemma is `offset_eq_spec`, by induction over the text.
+* `document_is_its_own_history`, `other_documents_invisible`, `one_copy_per_document` — the store is a map: after
+  any history the copy of a document is the fold of *its own* open/change/close operations (closed = absent, a
+  change to an absent document is ignored), operations naming other URIs can be deleted from the history without
+  effect on it, and the store never holds two copies of one URI (`Proofs/LspDocs.lean`).
 * `one_response_per_request`, `responses_of_history` — dispatch answers a message iff it carries an id, once.
 * `unframe_frame`, `unframeAll_frames` — a frame with length header = body length reads back exactly; the
   decimal length itself round-trips (`parseNat_digits`).
@@ -30,6 +35,24 @@ theorem apply_is_protocol_edit (t : List Char) (sl sc el ec : Int) (text : List 
 
 theorem mirror_refines_spec (d : Docs) (ops : List DocOp) : Code.run d ops = some (Spec.run d ops) :=
   Lsp.mirror_refines_spec d ops
+
+/-- after any history, through the code-shaped model: no panic, and the copy of document `v` is what `v`'s own
+    operations make of what the store held for it at the start -/
+theorem document_is_its_own_history (d : Docs) (ops : List DocOp) (v : String) :
+    (Code.run d ops).map (fun s => s.get v) = some (docAfter (d.get v) (ops.filter (fun op => op.uri == v))) :=
+  code_run_get d ops v
+
+theorem other_documents_invisible (d : Docs) (ops : List DocOp) (v : String) :
+    (Spec.run d ops).get v = (Spec.run d (ops.filter (fun op => op.uri == v))).get v := run_independent d ops v
+
+theorem one_copy_per_document (ops : List DocOp) : (Spec.run [] ops).Uniq := keys_nodup ops
+
+/-- non-vacuity: interleaved histories of two documents; `b`'s operations do not reach `a`, a change after close
+    is ignored, a re-open starts afresh -/
+example : (Spec.run [] [.open_ "a" "x".toList, .open_ "b" "y".toList, .change "b" [.full "z".toList],
+    .change "a" [.ranged 0 1 0 1 "!".toList], .close "b", .change "b" [.full "w".toList]]).get "a" = some "x!".toList
+  ∧ (Spec.run [] [.open_ "a" "x".toList, .open_ "b" "y".toList, .close "b", .change "b" [.full "w".toList]]).get "b" = none := by
+  decide
 
 theorem one_response_per_request (m : Msg) (h : m.wf) : handle m = if m.hasId then [m.id] else [] :=
   Lsp.one_response_per_request m h
